@@ -17,7 +17,7 @@ func init() {
 		Title:    "Embedded fonts cover every character drawn with them",
 		Patterns: []string{"./d2renderers/...", "./d2themes/...", "./lib/color", "./lib/svg", "./d2target", "./lib/textmeasure", "./lib/jsrunner", "./lib/font"},
 		Explanation: "Decides field-set inclusion between what is drawn and what is measured for font subsetting: the set of d2target field paths (e.g. Connection.SrcLabel.Label) from which the renderers derive strings that reach an XML *text* position — computed by the origin-tracking slice of the taint engine over d2svg, appendix and d2sketch — is included in the set of field paths that flow into the string returned by Diagram.GetCorpus; " +
-			"GetNestedCorpus recurses into Layers, Scenarios and Steps; and the subsetting call falls back to the full font encoding on error. Also the no-filter clause: on the way from the corpus to the subset font's character map (de-duplication in Font.GetEncodedSubset, rune numbering in font.UTF8CutFont, cmap pairs in utf8FontFile.parseSymbols) each loop records every element of its input under no other condition than a membership test of that element, and never skips one.",
+			"GetNestedCorpus recurses into Layers, Scenarios and Steps; and the subsetting call falls back to the full font encoding on error. Also the no-filter clause: on the way from the corpus to the subset font's character map (de-duplication in Font.GetEncodedSubset, rune numbering in font.UTF8CutFont, cmap pairs in utf8FontFile.parseSymbols) each loop records every element of its input under no other condition than a membership test of that element, and never skips one; and the loops of GetCorpus / GetNestedCorpus over shapes, connections, class fields and methods, table columns and nested boards skip nothing.",
 		NotCovered: "the subsetter's glyph closure (ligatures, composite glyphs), characters added by the renderer itself (constants are ASCII: list markers, ellipsis), fonts of markdown/latex content rendered by goldmark/MathJax",
 		Technique:  "static analysis: origin-tracking backward slice on go/ssa on both sides, set inclusion",
 		Run:        runC47,
@@ -160,6 +160,18 @@ func membershipOnly(info *types.Info, fi *core.FuncInfo, cond ast.Expr, elem typ
 
 func runC47(c *core.Check) {
 	runC47NoFilter(c)
+	c.Rule("C47.visit-all", "the corpus loops visit every shape, connection and nested board")
+	{
+		nv := 0
+		for _, name := range []string{"GetCorpus", "GetNestedCorpus"} {
+			if fi := mustFunc(c, "d2target", "Diagram", name); fi != nil {
+				nv += loopsVisitAll(c, "C47.visit-all", fi, []string{"Shapes", "Connections", "Layers", "Scenarios", "Steps", "Fields", "Methods", "Columns"}, "the text of a skipped element is drawn with the embedded font but its characters are not in the subset")
+			}
+		}
+		if nv < 5 {
+			c.Fail("C47.visit-all", "visit-all:inventory", token.NoPos, fmt.Sprintf("only %d corpus loops found", nv))
+		}
+	}
 	c.Rule("C47.corpus", "field paths drawn as text ⊆ field paths collected by GetCorpus")
 	c.Rule("C47.nested", "GetNestedCorpus recurses into layers, scenarios and steps")
 	c.Rule("C47.fallback", "GetEncodedSubset returns the full encoding when subsetting fails")
